@@ -26,7 +26,7 @@ SKEL = [
     ("list", [".Bl", ".It a"], [".El"]),
     ("table", [".Bl -t table T", ".It a"], [".El"]),
     ("title", [".Bm", "t"], [".Em"]),
-    ("ctl", [".#de m"], [".#.", ".m"]),
+    ("ctl", [".#de u"], [".#.", ".u"]),
     ("head", [".Ch C"], [".Tc"]),
     ("tags", [".Bf -t escape"], [".Ef"]),
 ]
@@ -169,6 +169,14 @@ def diag_matches(goline, m):
     return (not mac) or rest.startswith(mac + ": ")
 
 
+UUID_RE = re.compile(r"urn:uuid:[0-9a-f]{8}-[0-9a-f]{4}-[0-9a-f]{4}-[0-9a-f]{4}-[0-9a-f]{12}")
+TIME_RE = re.compile(r"(<meta property=\"dcterms:modified\">)\d{4}-\d\d-\d\dT\d\d:\d\d:\d\d(?:Z|[+-]\d\d:\d\d)(</meta>)")
+
+
+def norm_nondet(text):
+    return TIME_RE.sub(r"\g<1>0001-01-01T01:01:01Z\g<2>", UUID_RE.sub("", text))
+
+
 def compare(case, go, model):
     """Returns None if the projected observables agree, else a short reason."""
     a, b = parse_go(go), parse_model(model)
@@ -180,6 +188,8 @@ def compare(case, go, model):
         ks = sorted(set(a[1]) | set(b[1]))
         for k in ks:
             if a[1].get(k) != b[1].get(k):
+                if k in a[1] and k in b[1] and norm_nondet(dec(a[1][k])) == dec(b[1][k]):
+                    continue        # random EPUB identifier / modification time when epub-uuid is unset (excluded by C18 itself)
                 return "output file %r differs" % dec(k)
     if len(a[2]) != len(b[2]):
         return "number of diagnostics %d vs %d" % (len(a[2]), len(b[2]))
